@@ -26,7 +26,7 @@ variable {Node VH : Type} [DecidableEq Node] [DecidableEq VH] (H : Hasher Node V
 
 /-- T7.2d **completeness of `find_index_for`.**  `mp` ANY proof object accepted by `verify` against ANY
 root; `key` at least as long as every verified depth (every 256-bit key is: `depth ≤ |path()| ≤ 256`, see
-T7.2d' for the form without this hypothesis).  If the verified path at index `i` covers the key
+T7.2dr for the form without this hypothesis).  If the verified path at index `i` covers the key
 (`path()[..depth] == key[..depth]`, the `in_scope` test of the `…_with_index` functions), then
 `find_index_for(key)` returns `Ok(i)` — the binary search by `path()[..depth].cmp(key[..depth])` cannot
 miss it and cannot land on another path. -/
@@ -51,9 +51,9 @@ theorem depth_le_of_verified (hs : H.Sound) (L : Nat) (S : List (Key × VH)) (hc
   rw [List.length_take] at hlen
   omega
 
-/-- T7.2d' the same against the root of a canonical set `S` of `L`-bit keys (`L` = 256 in the code), for
+/-- T7.2dr the same against the root of a canonical set `S` of `L`-bit keys (`L` = 256 in the code), for
 every `L`-bit key: no side condition on lengths is left. -/
-theorem T7_2d'_find_index_complete_root (hs : H.Sound) (L : Nat) (S : List (Key × VH)) (hc : Canon L 0 S)
+theorem T7_2dr_find_index_complete_root (hs : H.Sound) (L : Nat) (S : List (Key × VH)) (hc : Canon L 0 S)
     (mp : MultiProof Node VH) (v : VerifiedMulti Node VH)
     (hv : verifyMulti H mp (nodeAt H L 0 S) = .ok v) (key : Key) (hkl : key.length = L)
     (i : Nat) (vi : VPath VH) (hi : v.inner[i]? = some vi)
